@@ -869,4 +869,124 @@ theorem readCells_records (size : Nat) (store : List Bool) : ∀ (cs : List SCel
     rw [ih (base + 1) rest (fun x hx => h x (List.mem_cons_of_mem _ hx))]
     simp
 
+/-! ### header of a laid-out bag -/
+
+theorem readFields_layout (M C1 C2 C3 T rest : Bytes) (b4 off : Nat) (fl : Flags)
+    (hM : M.length = 4) (hfl : ∀ r, readFlags (M ++ b4 :: r) = some fl) (hs1 : 1 ≤ fl.sizeBytes)
+    (hC1 : C1.length = fl.sizeBytes) (hC2 : C2.length = fl.sizeBytes) (hC3 : C3.length = fl.sizeBytes)
+    (hT : T.length = off) :
+    readFields (M ++ b4 :: off :: (C1 ++ C2 ++ C3 ++ T ++ rest)) =
+      some { fl := fl, off := off, cells := natOfBE C1, roots := natOfBE C2, absent := natOfBE C3, tot := natOfBE T } := by
+  unfold readFields
+  rw [hfl]
+  simp only [Option.bind_some]
+  have hlen : ¬ (M ++ b4 :: off :: (C1 ++ C2 ++ C3 ++ T ++ rest)).length < 5 + (1 + 3 * fl.sizeBytes) := by
+    simp only [List.length_append, List.length_cons, hM, hC1, hC2, hC3]; omega
+  have h5 : (M ++ b4 :: off :: (C1 ++ C2 ++ C3 ++ T ++ rest))[5]? = some off := by
+    rw [List.getElem?_append_right (by omega), hM]; rfl
+  have hs0 : ¬ fl.sizeBytes = 0 := by omega
+  rw [if_neg hlen, h5]
+  simp only [Option.bind_some, if_neg hs0, uintAt]
+  have s1 : pySlice (M ++ b4 :: off :: (C1 ++ C2 ++ C3 ++ T ++ rest)) 6 (6 + fl.sizeBytes) = C1 := by
+    have : M ++ b4 :: off :: (C1 ++ C2 ++ C3 ++ T ++ rest) = (M ++ [b4, off]) ++ C1 ++ (C2 ++ C3 ++ T ++ rest) := by
+      simp [List.append_assoc]
+    rw [this]; apply pySlice_mid <;> simp [hM, hC1] <;> omega
+  have s2 : pySlice (M ++ b4 :: off :: (C1 ++ C2 ++ C3 ++ T ++ rest)) (6 + fl.sizeBytes) (6 + fl.sizeBytes + fl.sizeBytes) = C2 := by
+    have : M ++ b4 :: off :: (C1 ++ C2 ++ C3 ++ T ++ rest) = (M ++ [b4, off] ++ C1) ++ C2 ++ (C3 ++ T ++ rest) := by
+      simp [List.append_assoc]
+    rw [this]; apply pySlice_mid <;> simp [hM, hC1, hC2] <;> omega
+  have s3 : pySlice (M ++ b4 :: off :: (C1 ++ C2 ++ C3 ++ T ++ rest)) (6 + 2 * fl.sizeBytes) (6 + 2 * fl.sizeBytes + fl.sizeBytes) = C3 := by
+    have : M ++ b4 :: off :: (C1 ++ C2 ++ C3 ++ T ++ rest) = (M ++ [b4, off] ++ C1 ++ C2) ++ C3 ++ (T ++ rest) := by
+      simp [List.append_assoc]
+    rw [this]; apply pySlice_mid <;> simp [hM, hC1, hC2, hC3] <;> omega
+  have s4 : pySlice (M ++ b4 :: off :: (C1 ++ C2 ++ C3 ++ T ++ rest)) (6 + 3 * fl.sizeBytes) (6 + 3 * fl.sizeBytes + off) = T := by
+    have : M ++ b4 :: off :: (C1 ++ C2 ++ C3 ++ T ++ rest) = (M ++ [b4, off] ++ C1 ++ C2 ++ C3) ++ T ++ rest := by
+      simp [List.append_assoc]
+    rw [this]; apply pySlice_mid <;> simp [hM, hC1, hC2, hC3, hT] <;> omega
+  rw [s1, s2, s3, s4]
+
+/-- `deserialize_boc_header` on  magic | b4 | off | cells | roots | absent | tot | root list | index | cell data | crc. -/
+theorem header_layout (M C1 C2 C3 T RL IDX CD CRC : Bytes) (b4 off : Nat) (fl : Flags)
+    (hM : M.length = 4) (hfl : ∀ r, readFlags (M ++ b4 :: r) = some fl) (hs1 : 1 ≤ fl.sizeBytes)
+    (hC1 : C1.length = fl.sizeBytes) (hC2 : C2.length = fl.sizeBytes) (hC3 : C3.length = fl.sizeBytes)
+    (hT : T.length = off)
+    (hRL : RL.length = if fl.generic then natOfBE C2 * fl.sizeBytes else 0) (hleg : fl.generic = false → natOfBE C2 = 1)
+    (hIDX : IDX.length = if fl.hasIdx then natOfBE C1 * off else 0) (hoff : off ≠ 0)
+    (hCD : CD.length = natOfBE T)
+    (hCRC : if fl.hasCrc then
+        Model.crc32c (M ++ b4 :: off :: (C1 ++ C2 ++ C3 ++ T ++ RL ++ IDX ++ CD)) = some CRC ∧ CRC.length = 4
+      else CRC = []) :
+    ∃ rl idx, deserializeBocHeader (M ++ b4 :: off :: (C1 ++ C2 ++ C3 ++ T ++ RL ++ IDX ++ CD) ++ CRC) =
+        some { fl := fl, offsetBytes := off, cellsNum := natOfBE C1, rootsNum := natOfBE C2, absentNum := natOfBE C3,
+               totCellsSize := natOfBE T, rootList := rl, index := idx, cellsData := CD } ∧
+      rl = (if fl.generic then
+              uintsAt (M ++ b4 :: off :: (C1 ++ C2 ++ C3 ++ T ++ RL ++ IDX ++ CD) ++ CRC) (6 + 3 * fl.sizeBytes + off) fl.sizeBytes (natOfBE C2)
+            else [0]) := by
+  have hform : M ++ b4 :: off :: (C1 ++ C2 ++ C3 ++ T ++ RL ++ IDX ++ CD) ++ CRC =
+      M ++ b4 :: off :: (C1 ++ C2 ++ C3 ++ T ++ (RL ++ IDX ++ CD ++ CRC)) := by simp [List.append_assoc]
+  have hF := readFields_layout M C1 C2 C3 T (RL ++ IDX ++ CD ++ CRC) b4 off fl hM hfl hs1 hC1 hC2 hC3 hT
+  rw [← hform] at hF
+  generalize hD : M ++ b4 :: off :: (C1 ++ C2 ++ C3 ++ T ++ RL ++ IDX ++ CD) ++ CRC = D at hF ⊢
+  have hDlen : D.length = 6 + 3 * fl.sizeBytes + off + RL.length + IDX.length + CD.length + CRC.length := by
+    rw [← hD]; simp only [List.length_append, List.length_cons, hM, hC1, hC2, hC3, hT]; omega
+  have hcd : pySlice D (6 + 3 * fl.sizeBytes + off + RL.length + IDX.length)
+      (6 + 3 * fl.sizeBytes + off + RL.length + IDX.length + natOfBE T) = CD := by
+    have : D = (M ++ [b4, off] ++ C1 ++ C2 ++ C3 ++ T ++ RL ++ IDX) ++ CD ++ CRC := by
+      rw [← hD]; simp [List.append_assoc]
+    rw [this]; apply pySlice_mid <;> simp [hM, hC1, hC2, hC3, hT, hCD] <;> omega
+  unfold deserializeBocHeader
+  rw [hF]
+  simp only [Option.bind_some, Fields.hdrEnd, Fields.rootsLen, Fields.indexLen]
+  rw [← hRL, ← hIDX]
+  refine ⟨(if fl.generic then uintsAt D (6 + 3 * fl.sizeBytes + off) fl.sizeBytes (natOfBE C2) else [0]),
+    (if fl.hasIdx then uintsAt D (6 + 3 * fl.sizeBytes + off + RL.length) off (natOfBE C1) else []),
+    Option.bind_eq_some_iff.mpr ⟨(if fl.generic then uintsAt D (6 + 3 * fl.sizeBytes + off) fl.sizeBytes (natOfBE C2) else [0]), ?_,
+      Option.bind_eq_some_iff.mpr ⟨(if fl.hasIdx then uintsAt D (6 + 3 * fl.sizeBytes + off + RL.length) off (natOfBE C1) else []), ?_, ?_⟩⟩, rfl⟩
+  · by_cases hg : fl.generic = true
+    · rw [if_pos hg] at hRL
+      have c1 : ¬ D.length < 6 + 3 * fl.sizeBytes + off + natOfBE C2 * fl.sizeBytes := by rw [hDlen, hRL]; omega
+      simp [hg, c1]
+    · have hg' : fl.generic = false := by simpa using hg
+      have c1 : ¬ (natOfBE C2 != 1) = true := by simp [hleg hg']
+      simp [hg', hleg hg']
+  · by_cases hi : fl.hasIdx = true
+    · rw [if_pos hi] at hIDX
+      have c1 : ¬ D.length < 6 + 3 * fl.sizeBytes + off + RL.length + off * natOfBE C1 := by
+        rw [hDlen, hIDX, Nat.mul_comm off]; omega
+      simp [hi, c1, hoff]
+    · simp [hi]
+  have c3 : ¬ D.length < 6 + 3 * fl.sizeBytes + off + RL.length + IDX.length + natOfBE T := by rw [hDlen, hCD]; omega
+  simp only [c3, if_false, hcd]
+  refine Option.bind_eq_some_iff.mpr ⟨D.length, ?_, by simp⟩
+  have hC : (if fl.hasCrc = true then
+        if List.length D < 6 + 3 * fl.sizeBytes + off + RL.length + IDX.length + natOfBE T + 4 then none
+        else if (crc32c (List.take (6 + 3 * fl.sizeBytes + off + RL.length + IDX.length + natOfBE T) D) !=
+            some (pySlice D (6 + 3 * fl.sizeBytes + off + RL.length + IDX.length + natOfBE T)
+              (6 + 3 * fl.sizeBytes + off + RL.length + IDX.length + natOfBE T + 4))) = true then none
+        else some (6 + 3 * fl.sizeBytes + off + RL.length + IDX.length + natOfBE T + 4)
+      else some (6 + 3 * fl.sizeBytes + off + RL.length + IDX.length + natOfBE T)) = some D.length := by
+    by_cases hc : fl.hasCrc = true
+    · rw [if_pos hc] at hCRC ⊢
+      obtain ⟨k1, k2⟩ := hCRC
+      have c4 : ¬ D.length < 6 + 3 * fl.sizeBytes + off + RL.length + IDX.length + natOfBE T + 4 := by
+        rw [hDlen, hCD, k2]; omega
+      have hbl : (M ++ b4 :: off :: (C1 ++ C2 ++ C3 ++ T ++ RL ++ IDX ++ CD)).length =
+          6 + 3 * fl.sizeBytes + off + RL.length + IDX.length + natOfBE T := by
+        simp only [List.length_append, List.length_cons, hM, hC1, hC2, hC3, hT, hCD]; omega
+      have htake : List.take (6 + 3 * fl.sizeBytes + off + RL.length + IDX.length + natOfBE T) D =
+          M ++ b4 :: off :: (C1 ++ C2 ++ C3 ++ T ++ RL ++ IDX ++ CD) := by
+        rw [← hD, ← hbl, List.take_left]
+      have hsl : pySlice D (6 + 3 * fl.sizeBytes + off + RL.length + IDX.length + natOfBE T)
+          (6 + 3 * fl.sizeBytes + off + RL.length + IDX.length + natOfBE T + 4) = CRC := by
+        have : D = (M ++ b4 :: off :: (C1 ++ C2 ++ C3 ++ T ++ RL ++ IDX ++ CD)) ++ CRC ++ [] := by rw [← hD]; simp
+        rw [this]; apply pySlice_mid
+        · rw [hbl]
+        · rw [hbl, k2]
+      simp only [c4, if_false, htake, hsl, k1, bne_self_eq_false, Bool.false_eq_true]
+      rw [hDlen, hCD, k2]
+    · rw [if_neg hc] at hCRC ⊢
+      rw [hDlen, hCD, hCRC]; simp
+  exact hC
+
+
 end TonVerif.Proofs.BocParse
